@@ -190,8 +190,59 @@ def check_fai_text(ctx, count):
             out.oracle_fail("fai-text", inp, "reading back written .fai rows does not give the index that was written")
 
 
+def check_replaced_file(ctx, count):
+    """the index must describe the file AS IT IS: the FASTA is replaced and only ONE of the two cache files is brought up to date
+    (e.g. `samtools faidx` rewrites the .fai and leaves the old .agp); mtimes are set explicitly.  `auto_load()` must then yield the
+    quintuples / assembly of the CURRENT content (it rebuilds both) — observed at FastaIndex.index / .assembly."""
+    import os
+    from tola.fasta.index import FastaIndex
+    rng = ctx.rng
+    with F.Scratch() as sc:
+        for i in range(count):
+            old = gen_wellformed(rng); new = gen_wellformed(rng)
+            p = sc.path / f"r{i}.fa"
+            p.write_bytes(old["data"]); os.utime(p, (1000, 1000))
+            inp = {"old": old["data"].decode("latin-1"), "new": new["data"].decode("latin-1"), "which_cache_is_fresh": None}
+            try:
+                f0 = FastaIndex(p); f0.auto_load()
+                fai, agp = f0.fai_file, f0.agp_file
+                os.utime(fai, (1100, 1100)); os.utime(agp, (1100, 1100))
+                p.write_bytes(new["data"]); os.utime(p, (2000, 2000))
+                which = rng.choice(["fai", "agp", "none", "equal"])
+                inp["which_cache_is_fresh"] = which
+                if which == "fai":
+                    os.utime(fai, (2100, 2100))          # its content is still the OLD index: only the time stamp says "fresh"
+                elif which == "agp":
+                    os.utime(agp, (2100, 2100))
+                elif which == "equal":                   # same time stamp as the FASTA: not STRICTLY newer, must be rebuilt
+                    os.utime(fai, (2000, 2000)); os.utime(agp, (2000, 2000))
+                f1 = FastaIndex(p); f1.auto_load()
+                got_idx = [[k, v.length, v.file_offset, v.residues_per_line, v.max_line_length] for k, v in f1.index.items()]
+                got_asm = [[s_.name, [conv.strip_oids(conv.from_real_row(r)) for r in s_.rows]] for s_ in f1.assembly.scaffolds]
+                (sc.path / f"cold{i}.fa").write_bytes(new["data"])
+                cold = FastaIndex(sc.path / f"cold{i}.fa")
+                cold.auto_load()
+                want_idx = [[k, v.length, v.file_offset, v.residues_per_line, v.max_line_length] for k, v in cold.index.items()]
+                want_asm = [[s_.name, [conv.strip_oids(conv.from_real_row(r)) for r in s_.rows]] for s_ in cold.assembly.scaffolds]
+                ctx.out.case("replaced-file", inp, ("replaced", which))
+                if got_idx != want_idx or got_asm != want_asm:
+                    ctx.out.oracle_fail("replaced-file", inp, f"after the FASTA was replaced (fresh time stamp on: {which}) auto_load() describes the OLD file, not the current one")
+            except Exception as e:
+                ctx.out.case("replaced-file", inp, ("replaced", "error"))
+                # failing loudly is allowed by the cache property, silently wrong is not; a crash on a well-formed file is neither
+                if not isinstance(e, ValueError):
+                    ctx.out.oracle_fail("replaced-file", inp, f"auto_load() after replacing the FASTA raised {conv.errkind(e)}")
+            finally:
+                for o in ("f0", "f1", "cold"):
+                    try:
+                        locals()[o].fasta_fileandle.close()
+                    except Exception:
+                        pass
+
+
 def run(ctx):
     n = 8 if ctx.thorough else 1
+    check_replaced_file(ctx, 25 * n)
     check_fai_text(ctx, 150 * n)
     check_wellformed(ctx, "wellformed", [gen_wellformed(ctx.rng) for _ in range(500 * n)])
     check_wellformed(ctx, "malformed", [gen_malformed(ctx.rng) for _ in range(150 * n)])
